@@ -50,6 +50,82 @@ func ruleSentinelWrapped(c *Ctx, rule string, pkgs ...string) {
 	}
 	viaIs := map[*types.Var]token.Pos{}
 	viaEq := map[*types.Var]token.Pos{}
+	// eqCone: the functions whose errors can arrive at an identity comparison of the sentinel (the cones of the
+	// calls the compared variable receives its value from; nil = unknown, every function counts)
+	eqCone := map[*types.Var]map[*Func]bool{}
+	eqUnknown := map[*types.Var]bool{}
+	var sourcesOf func(f *Func, e ast.Expr, depth int) ([]*Func, bool)
+	sourcesOf = func(f *Func, e ast.Expr, depth int) ([]*Func, bool) {
+		id, ok := ast.Unparen(e).(*ast.Ident)
+		if !ok || depth > 2 {
+			return nil, false
+		}
+		obj := f.ObjOf(id)
+		var srcs []*Func
+		known := false
+		ast.Inspect(f.Decl.Body, func(y ast.Node) bool {
+			as, ok := y.(*ast.AssignStmt)
+			if !ok || len(as.Rhs) != 1 {
+				return true
+			}
+			for _, l := range as.Lhs {
+				if lid, ok := l.(*ast.Ident); ok && f.ObjOf(lid) == obj {
+					if c2, ok := ast.Unparen(as.Rhs[0]).(*ast.CallExpr); ok {
+						if t := w.resolve(f.Callee(c2)); len(t) > 0 {
+							srcs = append(srcs, t...)
+							known = true
+						}
+					}
+				}
+			}
+			return true
+		})
+		if known {
+			return srcs, true
+		}
+		// a parameter: what the callers pass
+		if isParamOf(f, obj) {
+			idx := -1
+			k := 0
+			for _, fl := range f.Decl.Type.Params.List {
+				for _, nm := range fl.Names {
+					if f.ObjOf(nm) == obj {
+						idx = k
+					}
+					k++
+				}
+			}
+			all := true
+			for _, cs := range w.CG().In[f] {
+				if idx < 0 || idx >= len(cs.Call.Args) {
+					all = false
+					continue
+				}
+				t, ok := sourcesOf(cs.Caller, cs.Call.Args[idx], depth+1)
+				if !ok {
+					all = false
+				}
+				srcs = append(srcs, t...)
+			}
+			if all && len(srcs) > 0 {
+				return srcs, true
+			}
+		}
+		return nil, false
+	}
+	noteEq := func(f *Func, v *types.Var, compared ast.Expr) {
+		srcs, ok := sourcesOf(f, compared, 0)
+		if !ok {
+			eqUnknown[v] = true
+			return
+		}
+		if eqCone[v] == nil {
+			eqCone[v] = map[*Func]bool{}
+		}
+		for g := range w.CG().Reach(srcs...) {
+			eqCone[v][g] = true
+		}
+	}
 	for _, name := range w.SortedFuncNames() {
 		f := w.Funcs[name]
 		ast.Inspect(f.Decl.Body, func(x ast.Node) bool {
@@ -62,9 +138,22 @@ func ruleSentinelWrapped(c *Ctx, rule string, pkgs ...string) {
 				}
 			case *ast.BinaryExpr:
 				if y.Op == token.EQL || y.Op == token.NEQ {
-					for _, side := range []ast.Expr{y.X, y.Y} {
+					for si, side := range []ast.Expr{y.X, y.Y} {
 						if v := isSentinel(f, side); v != nil {
 							viaEq[v] = y.Pos()
+							noteEq(f, v, []ast.Expr{y.Y, y.X}[si])
+						}
+					}
+				}
+			case *ast.SwitchStmt:
+				// switch err { case ErrA, ErrB: … } compares by identity as well
+				if y.Tag != nil && isErrorType(f.TypeOf(y.Tag)) {
+					for _, cs := range y.Body.List {
+						for _, e := range cs.(*ast.CaseClause).List {
+							if v := isSentinel(f, e); v != nil {
+								viaEq[v] = e.Pos()
+								noteEq(f, v, y.Tag)
+							}
 						}
 					}
 				}
@@ -73,6 +162,71 @@ func ruleSentinelWrapped(c *Ctx, rule string, pkgs ...string) {
 		})
 	}
 	n := 0
+	// a sentinel that is compared by identity somewhere must not be wrapped on its way there, not even with %w and
+	// not through a variable: fmt.Errorf("column %s: %w", name, err) with err the result of a call whose cone can
+	// return the sentinel
+	for _, name := range w.SortedFuncNames() {
+		f := w.Funcs[name]
+		okPkg := len(pkgs) == 0
+		for _, p := range pkgs {
+			if f.Pkg == w.Pkgs[p] {
+				okPkg = true
+			}
+		}
+		if !okPkg || len(viaEq) == 0 {
+			continue
+		}
+		k := 0
+		ast.Inspect(f.Decl.Body, func(x ast.Node) bool {
+			call, ok := x.(*ast.CallExpr)
+			if !ok || !f.CallIs(call, "fmt.Errorf") || len(call.Args) < 2 {
+				return true
+			}
+			for _, a := range call.Args[1:] {
+				id, ok := ast.Unparen(a).(*ast.Ident)
+				if !ok || !isErrorType(f.TypeOf(id)) || isSentinel(f, id) != nil {
+					continue
+				}
+				obj := f.ObjOf(id)
+				// the calls this variable receives its value from
+				var srcs []*Func
+				ast.Inspect(f.Decl.Body, func(y ast.Node) bool {
+					as, ok := y.(*ast.AssignStmt)
+					if !ok || len(as.Rhs) != 1 {
+						return true
+					}
+					holds := false
+					for _, l := range as.Lhs {
+						if lid, ok := l.(*ast.Ident); ok && f.ObjOf(lid) == obj {
+							holds = true
+						}
+					}
+					if !holds || as.Pos() > call.Pos() {
+						return true
+					}
+					if c2, ok := ast.Unparen(as.Rhs[0]).(*ast.CallExpr); ok {
+						srcs = append(srcs, w.resolve(f.Callee(c2))...)
+					}
+					return true
+				})
+				if len(srcs) == 0 {
+					continue
+				}
+				may := coneErrVars(w, srcs...)
+				for v, at := range viaEq {
+					if _, alsoIs := viaIs[v]; alsoIs {
+						continue
+					}
+					if may[v] && (eqUnknown[v] || eqCone[v][f]) {
+						k++
+						n++
+						c.FailConfined(rule, f.Name+"|wraps-through|"+id.Name+"|"+v.Name(), call.Pos(), "%s wraps %s in a new error, and %s can be %s, which is recognised by identity (== / switch) at %s: the comparison no longer matches and the condition is taken for another kind of failure", f.Name, id.Name, id.Name, v.Name(), w.Pos(at))
+					}
+				}
+			}
+			return true
+		})
+	}
 	for _, name := range w.SortedFuncNames() {
 		f := w.Funcs[name]
 		okPkg := len(pkgs) == 0
